@@ -67,6 +67,15 @@ func SubnetsFromTomlFile(path string) (*PhantomIPSelector, error) {
 		if err != nil {
 			return nil, err
 		}
+		// The table keys are iterated in map order: a negative number (-1 asks AddGeneration for
+		// "the next unused index") or a number written twice ("1" and "01") would be assigned
+		// differently from one load of the same file to the next.
+		if g < 0 {
+			return nil, fmt.Errorf("invalid generation number %q in configuration file", gen)
+		}
+		if pss.IsTakenGeneration(uint(g)) {
+			return nil, fmt.Errorf("generation %d defined more than once in configuration file", g)
+		}
 		// fmt.Printf("[GetPhantomSubnetSelector] adding %d, %+v\n", g, set)
 		pss.AddGeneration(g, set)
 	}
